@@ -245,6 +245,8 @@ class Reader:
         if not t:
             self.err("empty atom at %r" % self.s[self.i:self.i + 10])
         c0 = t[0]
+        if t in ("#t", "#f", "#true", "#false"):
+            return self.mk(Num, t, line)      # booleans are self-evaluating data, not identifiers
         if c0.isdigit() or (c0 in "+-." and len(t) > 1 and (t[1].isdigit() or t[1] == ".")) or \
                 (c0 == "#" and len(t) > 1 and t[1] in "xXbBoOdDeEiI"):
             return self.mk(Num, t, line)
